@@ -78,9 +78,9 @@ func runHistory(t *testing.T, r *vrep.Report, id int, cfg histCfg) {
 			h.d.Advance(int64(1 + rng.Intn(5)))
 		}
 	}
-	if rng.Intn(10) < 7 {
-		h.d.Advance(int64(ttlShort + 1 + rng.Intn(200))) // short TTLs are over now
-	}
+	// short TTLs are over now (a read that meets a short-TTL lock which is still alive spins through its whole
+	// back-off budget in 15 ms steps: thousands of RPCs under virtualised sleeping)
+	h.d.Advance(int64(ttlShort + 1 + rng.Intn(200)))
 	// read phase, the history keeps growing between sessions
 	for si := 0; si < cfg.sessions && !h.aborted; si++ {
 		h.session(si, 3+rng.Intn(cfg.opsMax))
@@ -90,6 +90,7 @@ func runHistory(t *testing.T, r *vrep.Report, id int, cfg histCfg) {
 		switch x := rng.Intn(100); {
 		case x < 30:
 			h.d.NewTxn(h.d.pickFate(cfg.backend))
+			h.d.Advance(int64(ttlShort + 1 + rng.Intn(50)))
 		case x < 45:
 			h.d.FinishPending()
 		case x < 65:
@@ -266,7 +267,11 @@ func TestVerifC05(t *testing.T) {
 				continue
 			}
 			t.Logf("history %d %s seed=%d", id, backend, cfg.seed) // before running it: a crash names the history
+			h0 := time.Now()
 			runHistory(t, r, id, cfg)
+			if d := time.Since(h0); d > 2*time.Second {
+				t.Logf("history %d %s seed=%d took %v", id, backend, cfg.seed, d)
+			}
 			if id%10 == 0 {
 				r.Flush()
 			}
